@@ -3,7 +3,8 @@
        between the braces the splice wrote a comma after the opening brace.
    (2) validateBlipBody consulted the decoded body only for reserved names that occur unescaped in the raw
        text, so "_id" passed. *)
-From SG Require Import Base.Prelude C19.Json C19.JsonSplice C19.Reserved C19.SpliceProofs C19.ReservedProofs.
+From SG Require Import Base.Prelude C19.Json C19.JsonSplice C19.Reserved C19.SpliceProofs C19.ReservedProofs
+  C19.Accept C19.AcceptProofs C19.ReadPath C19.ReadProofs C19.AcceptV.
 Open Scope N_scope.
 
 (* the unrepaired splice is correct unless the object is blank *)
@@ -38,4 +39,87 @@ Proof.
   exists [(k_id, KStr, true); ([97], KNum, false)], (k_id, KStr, true).
   split; [|split; [left; reflexivity|split; vm_compute; reflexivity]].
   constructor; [|constructor; [intros []|constructor]]. intros [H|[]]. discriminate.
+Qed.
+
+(* ============ statements the faithful model of the tree AS IT IS violates (found by the deepened model) ============
+   (3) the literal null as a request text: POST /ks/ and a BLIP rev decode it into a nil map without error and panic in
+       prepareSyncFn (mutableBody[BodyId] = ...) instead of answering 400.
+   (4) a BLIP rev whose body has bytes after the JSON object is accepted and the bytes are stored as received
+       (Body.Unmarshal decodes one value and never looks at the rest); the byte-splicing exits then have no document to
+       return (_changes?include_docs drops the document or the whole row, _all_docs?include_docs answers 500).
+   (5) PUT ?new_edits=false / _bulk_docs new_edits=false drop the error of ExtractExpiry: an _exp that is not an expiry
+       is stored (the same body gets 400 from PUT, POST, _bulk_docs and BLIP).
+   (6) _cv is let into the stored body by new_edits=false, BLIP rev and import; the exits that inject _cv then replace the
+       stored value (map exits) or emit the name twice (_changes?include_docs). *)
+
+Definition nonobject_refused_with_status : Prop :=
+  forall e t, (t = TInvalid \/ t = TNonObj \/ t = TNull) -> exists s, accept e t = RRej s.
+
+Theorem null_body_panics_refuted : ~ nonobject_refused_with_status.
+Proof.
+  intros H. destruct (H EPost TNull) as [s Hs]; [tauto|]. discriminate.
+Qed.
+
+Definition gateway_stores_only_json_objects : Prop :=
+  forall e t r tms tr, accept e t = r -> stored_text t r = Some (tms, tr) -> e <> EImport -> tr = false.
+
+Theorem blip_trailing_bytes_refuted : ~ gateway_stores_only_json_objects.
+Proof.
+  intros H. specialize (H EBlip (TObj [([97], KNum, false)] true) _ _ true eq_refl eq_refl). assert (true = false) by (apply H; discriminate). discriminate.
+Qed.
+
+(* ... and such a document cannot be read through a splice exit *)
+Theorem blip_trailing_bytes_unreadable :
+  exists t d, accept_v vk (fun v => v) (fun v => v) EBlip t = VStored d true /\
+    forall mt, read (fun v => v) XChanges mt d = None /\ read (fun v => v) (XAllDocs false) mt d = None.
+Proof.
+  exists (VObj [([97], KNum, false)] true). eexists. split; [vm_compute; reflexivity|]. intros mt. split; reflexivity.
+Qed.
+
+Definition invalid_expiry_never_stored : Prop :=
+  forall e raw tr ms vb v, accept e (TObj raw tr) = RStored ms vb -> e <> EImport -> e <> EImportFeed ->
+    In (k_exp, v) ms -> v = KNull.
+
+Theorem new_edits_false_invalid_exp_refuted : ~ invalid_expiry_never_stored.
+Proof.
+  intros H.
+  specialize (H EPutNE [(k_exp, KTrue, false); ([97], KNum, false)] false _ _ KTrue eq_refl).
+  assert (KTrue = KNull); [|discriminate]. apply H; try discriminate. now left.
+Qed.
+
+(* the same body is refused by the other gateway entry points *)
+Theorem invalid_exp_refused_elsewhere :
+  let t := TObj [(k_exp, KTrue, false); ([97], KNum, false)] false in
+  accept EPut t = RRej 400 /\ accept EPost t = RRej 400 /\ accept EBulk t = RRej 400 /\ accept EBlip t = RRej 400 /\
+  accept EPutNE t = RStored [(k_exp, KTrue); ([97], KNum)] false /\ accept EBulkNE t = RStored [(k_exp, KTrue); ([97], KNum)] false.
+Proof. repeat split; vm_compute; reflexivity. Qed.
+
+Definition response_members_are_distinct : Prop :=
+  forall e x mt raw d vb, accept_v vk (fun v => v) (fun v => v) e (VObj raw false) = VStored d vb -> NoDup (map vkey raw) ->
+    exists out, read (fun v => v) x mt d = Some out /\ NoDup (map fst out).
+
+Theorem stored_cv_doubled_refuted : ~ response_members_are_distinct.
+Proof.
+  intros H.
+  destruct (H EBlip XChanges {| m_cv := true; m_deleted := false; m_exp := false; m_atts := ANil |}
+              [(k_cv, KStr, false); ([97], KNum, false)] _ _ eq_refl) as [out [Hout Hnd]].
+  - cbn [map vkey fst]. constructor; [|constructor; [intros []|constructor]]. intros [E|[]]. discriminate.
+  - vm_compute in Hout. inversion Hout; subst out. clear Hout. cbn [map fst] in Hnd.
+    inversion Hnd as [|x l Hn _]; subst. apply Hn. cbn [In]. tauto.
+Qed.
+
+Definition stored_members_come_back : Prop :=
+  forall e x mt raw d vb, accept_v vk (fun v => v) (fun v => v) e (VObj raw false) = VStored d vb -> NoDup (map vkey raw) ->
+    exists out, read (fun v => v) x mt d = Some out /\
+      forall k v, In (k, v) (sd_ms d) -> In (k, OU v) (parsed out).
+
+Theorem stored_cv_shadowed_refuted : ~ stored_members_come_back.
+Proof.
+  intros H.
+  destruct (H EPutNE (XGet false false) {| m_cv := true; m_deleted := false; m_exp := false; m_atts := ANil |}
+              [(k_cv, KStr, false); ([97], KNum, false)] _ _ eq_refl) as [out [Hout Hall]].
+  - cbn [map vkey fst]. constructor; [|constructor; [intros []|constructor]]. intros [E|[]]. discriminate.
+  - vm_compute in Hout. inversion Hout; subst out. clear Hout.
+    specialize (Hall k_cv KStr). cbn [sd_ms] in Hall. assert (Hin : In (k_cv, KStr) [(k_cv, KStr); ([97], KNum)]) by now left.
+    apply Hall in Hin. vm_compute in Hin. repeat (destruct Hin as [Hin|Hin]; [discriminate|]). contradiction.
 Qed.
